@@ -85,7 +85,7 @@ func (f *simFileIO) WriteFile(ctx context.Context, name string, data []byte, per
 			}
 		}
 	}
-	if f.w.passiveDown(name) {
+	if f.w.passiveDownOp("write", name) {
 		return f.wrap(errFor("eio", "write", name))
 	}
 	err := f.real.WriteFile(ctx, name, data, perm)
@@ -101,7 +101,7 @@ func (f *simFileIO) ReadFile(ctx context.Context, name string) ([]byte, error) {
 			return nil, f.wrap(err)
 		}
 	}
-	if f.w.passiveDown(name) {
+	if f.w.passiveDownRead(name) {
 		return nil, f.wrap(errFor("eio", "read", name))
 	}
 	return f.real.ReadFile(ctx, name)
@@ -117,7 +117,7 @@ func (f *simFileIO) Remove(ctx context.Context, name string) error {
 			return f.wrap(err)
 		}
 	}
-	if f.w.passiveDown(name) {
+	if f.w.passiveDownOp("remove", name) {
 		return f.wrap(errFor("eio", "remove", name))
 	}
 	return f.real.Remove(ctx, name)
@@ -147,7 +147,7 @@ func (f *simFileIO) RemoveAll(ctx context.Context, path string) error {
 			return f.wrap(err)
 		}
 	}
-	if f.w.passiveDown(path) {
+	if f.w.passiveDownOp("removeall", path) {
 		return f.wrap(errFor("eio", "removeall", path))
 	}
 	return f.real.RemoveAll(ctx, path)
@@ -163,7 +163,7 @@ func (f *simFileIO) MkdirAll(ctx context.Context, path string, perm os.FileMode)
 			return f.wrap(err)
 		}
 	}
-	if f.w.passiveDown(path) {
+	if f.w.passiveDownOp("mkdir", path) {
 		return f.wrap(errFor("eio", "mkdir", path))
 	}
 	return f.real.MkdirAll(ctx, path, perm)
@@ -209,7 +209,7 @@ func (d *simDirectIO) Open(ctx context.Context, filename string, flag int, perm 
 			return nil, d.wrap(err)
 		}
 	}
-	if d.w.passiveDown(filename) {
+	if d.w.passiveDownOp("open", filename) {
 		return nil, d.wrap(errFor("eio", "open", filename))
 	}
 	return os.OpenFile(filename, flag, perm)
@@ -244,7 +244,7 @@ func (d *simDirectIO) WriteAt(ctx context.Context, file *os.File, block []byte, 
 			}
 		}
 	}
-	if d.w.passiveDown(name) {
+	if d.w.passiveDownOp("write", name) {
 		return 0, d.wrap(errFor("eio", "write", name))
 	}
 	return file.WriteAt(block, offset)
@@ -257,7 +257,7 @@ func (d *simDirectIO) ReadAt(ctx context.Context, file *os.File, block []byte, o
 			return 0, d.wrap(err)
 		}
 	}
-	if d.w.passiveDown(name) {
+	if d.w.passiveDownRead(name) {
 		return 0, d.wrap(errFor("eio", "read", name))
 	}
 	return file.ReadAt(block, offset)
@@ -279,7 +279,7 @@ func (w *World) osCreate(name string) (*os.File, error) {
 			return nil, err
 		}
 	}
-	if w.passiveDown(name) {
+	if w.passiveDownOp("create", name) {
 		return nil, errFor("eio", "open", name)
 	}
 	f, err := os.Create(name)
